@@ -108,18 +108,30 @@ func ZZC04Assign() {
 	D := zzParam("D", 1)
 	types := zzTypes(D)
 	t := types[zzChoice("target", len(types))]
-	kind := zzChoice("kind", 4) // 0 variable, 1 constant literal, 2 empty literal, 3 expression of variables
+	kind := zzChoice("kind", 6) // 0 variable, 1 constant literal, 2 empty literal, 3 expression of variables, 4/5 expression mixing a constant and a variable
 	ctx := zzChoice("ctx", 4)   // 0 typed decl + assignment, 1 parameter, 2 variadic parameter, 3 return value
 	var val, setup, dyn string
 	want := false
 	switch kind {
-	case 0, 3:
+	case 0, 3, 4, 5:
 		t2 := types[zzChoice("valtype", len(types))]
 		setup = "w:" + t2 + "\n"
 		val = "w"
 		dyn = t2
 		if t2 == "any" {
 			dyn = "bool" // the zero value of any is false
+		}
+		if kind >= 4 {
+			// an expression that contains a variable is treated like a variable
+			lit := zzLit(t2)
+			if lit == "" || !(t2 == "num" || t2 == "string" || zzIsArr(t2)) {
+				zzAssume(false)
+			}
+			if kind == 4 {
+				val = lit + "+w"
+			} else {
+				val = "w+" + lit
+			}
 		}
 		if kind == 3 {
 			// an expression of variables behaves like a variable
